@@ -636,6 +636,36 @@ def prepare_placement_check(ctx, ev):
             elif r:
                 fits = True
         info["fits"] = True if fits else (None if undecided else False)
+    # tasks whose TASK_FINISHED is due at this very instant but still pending: a task that ends at t
+    # has left its worker at t (half-open occupancy) and its children may start at t, so a placement
+    # chosen for t must not be pushed back because of them
+    info["fits_after_due"] = info["ready_after_due"] = None
+    if ctx.now == chosen and (info["fits"] is False or not info["ready"]) and task.state.name == "SCHEDULED":
+        due = {id(e.task) for e in ctx.mirror
+               if getattr(e, "task", None) is not None and e.event_type.name == "TASK_FINISHED"
+               and _us(e.time) == ctx.now}
+        if due:
+            done2 = [d or (ps is not None and id(ps.task) in due) for d, (_, ps) in zip(done, par)]
+            info["ready_after_due"] = True if not par else (any(done2) if node.get("terminal") else all(done2))
+            fits2 = None
+            if pool is not None and strat is not None:
+                fits2 = False
+                for w in pool.workers:
+                    if pl.worker_id is not None and w.id != pl.worker_id:
+                        continue
+                    led = ctx.ledgers.get(id(w))
+                    if led is None or led.used_specific() or any(rid != "any" for _, rid, _ in demand_of(strat)):
+                        fits2 = None
+                        break
+                    used = dict(led.used_by_type())
+                    for tid, (rt_, rs_) in led.residents.items():
+                        if tid in due and id(rs_) not in led.batches:
+                            for name, rid, q in demand_of(rs_):
+                                used[name] = used.get(name, 0) - q
+                    if all(led.total_by_type.get(name, 0) - used.get(name, 0) >= q
+                           for name, rid, q in demand_of(strat)):
+                        fits2 = True
+            info["fits_after_due"] = fits2
     ctx.pending_place = info
 
 
@@ -652,6 +682,14 @@ def on_boundary(ctx):
                         f"{s.uname}: placement event at its chosen time {pp['t']} with predecessors "
                         f"done and the pool able to hold the strategy, but it did not start "
                         f"(state {s.state})", {"state": s.state})
+        if not started_now and pp["t"] == pp["chosen"] and pp["state"] == "SCHEDULED" \
+                and s.state not in ("CANCELLED",) and pp.get("ready_after_due") \
+                and (pp["fits"] is True or pp.get("fits_after_due") is True) \
+                and not (pp["ready"] and pp["fits"] is True):
+            ctx.violate("C03", "deferred_behind_same_instant_finish",
+                        f"{s.uname}: chosen to start at {pp['t']}; the only obstacles were tasks whose "
+                        f"TASK_FINISHED is due at {pp['t']} as well, but the placement was handled first and "
+                        f"pushed back", {"ready_before": bool(pp["ready"]), "fits_before": pp["fits"]})
         if not started_now:
             s.deferred = True
             s.ever_deferred = True
